@@ -22,6 +22,19 @@ type CCase struct {
 	Phases   [][][]COp `json:"phases"` // phase -> goroutine -> ops
 	Force    bool      `json:"force"`  // final Close(force)
 	Procs    int       `json:"procs,omitempty"`
+	Spread   int       `json:"spread,omitempty"` // 0: small keys; 1: every other key/namespace has the top bit set; 2: keys scattered over all 64 bits
+}
+
+func (c *CCase) spread(x uint64) uint64 {
+	switch c.Spread {
+	case 1:
+		if x&1 == 1 {
+			return x | 1<<63
+		}
+	case 2:
+		return x * 0x9e3779b97f4a7c15
+	}
+	return x
 }
 
 // COp is one cache operation: get rel del evict evictns evictall setcap
@@ -194,7 +207,7 @@ func runCache(c *CCase) (st cStats, err error) {
 						}
 						stale = stale[:0]
 					}
-					ns, key := uint64(op.NS%max1(c.NSpace)), uint64(op.K%max1(c.KeySpace))
+					ns, key := c.spread(uint64(op.NS%max1(c.NSpace))), c.spread(uint64(op.K%max1(c.KeySpace)))
 					switch op.T {
 					case "get":
 						if x := h.get(ns, key, op.Size); x != nil {
@@ -204,7 +217,7 @@ func runCache(c *CCase) (st cStats, err error) {
 					case "fill":
 						// many distinct keys at once, so that the hash map grows past its resize thresholds
 						for j := 0; j < op.Size; j++ {
-							if x := h.get(ns, uint64((op.K+j)%max1(c.KeySpace)), 1); x != nil {
+							if x := h.get(ns, c.spread(uint64((op.K+j)%max1(c.KeySpace))), 1); x != nil {
 								x.due = i + op.Hold
 								held = append(held, x)
 							}
@@ -299,6 +312,7 @@ func drawCCase(t *rapid.T) *CCase {
 	c.Cap = rapid.SampledFrom([]int{100, 10, 1, 0, 1000, 100000, -1}).Draw(t, "cap")
 	c.KeySpace = rapid.SampledFrom([]int{8, 2000, 3, 40, 300}).Draw(t, "keyspace")
 	c.NSpace = rapid.SampledFrom([]int{2, 1, 5}).Draw(t, "nspace")
+	c.Spread = rapid.SampledFrom([]int{0, 0, 1, 2}).Draw(t, "spread")
 	c.Force = rapid.Bool().Draw(t, "force")
 	c.Procs = rapid.SampledFrom([]int{0, 1, 2, 4}).Draw(t, "procs")
 	maxOps := 200
@@ -364,6 +378,7 @@ func TestC17(t *testing.T) {
 		add(st.grow > 0, "map-grew")
 		add(st.shrink > 0, "map-shrank")
 		add(st.sameKeyOverlap > 0, "overlapping-same-key-handles")
+		add(c.Spread > 0, "keys-using-all-64-bits")
 		add(st.delH > 0, "delete-while-handle-outstanding")
 		add(c.Force, "close-force")
 		add(c.Cap < 0, "no-cacher")
